@@ -66,6 +66,22 @@ SB_OP(alloc)
                 Track tr;
                 rc = sb_buffer_init(&buf, tokul(a));
                 has_buf = rc == 0;
+            } else if (s == 'o') {
+                // adopt a caller-allocated block (the buffer owns it from now on); size 0 is refused and adopts nothing
+                if (has_buf) { answer(-2); continue; }
+                size_t n = tokul(a);
+                uint8_t* blk = (uint8_t*)malloc(n ? n : 1);
+                memset(blk, 0, n ? n : 1);
+                {
+                    Track tr;
+                    rc = sb_buffer_init_from_bytes(&buf, blk, n);
+                }
+                if (rc == 0) {
+                    ledger_adopt(blk);
+                    has_buf = true;
+                } else {
+                    free(blk);
+                }
             } else if (s == 'v') {
                 // a view over caller memory: the library must never grow, shrink or free it
                 if (has_buf) { answer(-2); continue; }
